@@ -27,7 +27,17 @@ RULE = (
     "seqid / biotype / name / on_alignment with allow_partial True and False (exact name sets); the features of view.get_seq(name) "
     "and of view.degap().get_seq(name) (and of the degapped collection itself for the whole alignment) with allow_partial True "
     "and False; get_projected_feature, get_projected_features(seqid=, on_alignment=False, allow_partial=True), aln[feature]. "
-    "Expected membership uses the feature envelope; "
+    "Windows are also presented one-sided, counted from the end of the view (negative) and swapped; every returned feature is also "
+    "read through seq[feature] and get_slice(complete=True) (must raise for a feature only partly inside the view), on alignments "
+    "through get_slice(allow_gaps=True); alignment histories include copy() and deepcopy(sliced=False). "
+    "Collection level: 2-3 sequences in an old- or new-style SequenceCollection (made by make_unaligned_seqs, or - old style - by "
+    "degapping a sliced / reverse complemented alignment), 1-4 features on several of them attached through coll.add_feature, "
+    "coll.annotation_db = db, GFF3 text (annotate_from_gff / load_annotations) or copy_annotations(db), next to records of a seqid "
+    "that is not in the collection; a collection history of rc / take_seqs (negate, copy_annotations) / degap / copy with an optional "
+    "final rename_seqs; collection.get_features filtered by seqid / biotype / name (new style: start / stop) as exact multisets of "
+    "(sequence, feature, residues); then one sequence taken out with get_seq and put through slices, strided slices, rc, copy, "
+    "deepcopy, degap and the window queries above; finally the collection the history started from, and a collection degapped "
+    "from it, must answer as before. Expected membership uses the feature envelope; "
     "expected residues come from the index model. Non-trivial = a multi-span or minus-strand feature only partly inside a view "
     "whose history contains an rc; distinct = distinct case encodings."
 )
@@ -40,6 +50,12 @@ ASSUMPTIONS = [
     "GFF3 text: one line per span (1-based inclusive), the spans of a feature share its ID and are documented to be merged into one feature, so IDs are kept distinct within a case; a record of a seqid that is not loaded, and db records of another seqid, must never be returned",
     "Alignment.get_features: on_alignment=False gives row features only, True alignment features only (seqid is ignored: 'ignores sequences'), None both; whether a seqid filter with on_alignment=None also excludes alignment features is undocumented, so alignment features are ignored in that comparison. A row feature matches when its envelope overlaps (allow_partial) or lies inside the part of its sequence retained by the view; rows with no residues in the view contribute nothing (documented in _get_seq_features). Alignment features are returned irrespective of position (exactness asserted on unsliced alignments only; sliced ones fall under the known finding)",
     "row sequences with no residues in the view are not queried (zero-width window); SequenceCollection.get_features takes no window, so the degapped collection is queried as a whole only when the alignment was not sliced or reversed",
+    "query windows: 'start, stop positions to search between ... If not provided, entire span of sequence is used' (docstring); the code of get_features states that negative values count from the end of the view and orders the two positions, so a window may be given one-sided, negative or swapped (a swapped window is only drawn when its lower end is > 0, and a one-sided one when the other end is the end of the view, because 0 / None mean 'not provided')",
+    "seq[feature] is feature.get_slice() (Sequence.__getitem__); get_slice(complete=True): 'if feature not complete on parent, causes an exception to be raised' - on unit-step views a feature is incomplete exactly when one of its residues is outside the view, the exception observed and allowed is ValueError; for a complete feature the result equals get_slice(). get_slice(allow_gaps=True) is documented for alignments only ('includes the gap positions'): every column from the first to the last retained column of the feature, read on the feature's strand; it is not asserted on sequences",
+    "alignment histories: copy() and deepcopy(sliced=False) leave view and annotations as they are (deepcopy(sliced=True) is documented to drop annotations and is not used); only slices and rc make an alignment 'sliced' for the known finding on alignment-level features",
+    "collections: new-style SequenceCollection.rc() and degap() are documented not to retain the annotation db, so the db is attached again (coll.annotation_db = db) before anything is asked; new-style collections have no annotation offsets. rename_seqs is only the last collection-level operation: old-style renamed sequences keep their features and can be asked for by the original seqid (pinned by tests/test_core/test_alignment.py::test_seq_rename_preserves_annotations); new-style renamed sequences carry a new seqid and nothing documents what becomes of records bound to the old one, so for them it is only required that whatever is returned denotes the right residues",
+    "collection.get_features: 'seqid ... defaults to search all', 'allow_partial: allow features partially overlaping self': the answer is the multiset of features of the member sequences, each restricted to the part of its sequence the collection shows (for a collection of whole sequences: all of them); records of seqids that are not members are never returned and must not disturb the query (take_seqs(copy_annotations=False) is pinned to share the db). The new-style start / stop window is in absolute coordinates; its docstring calls start 'not inclusive' and stop 'inclusive' while the db treats it as [start, stop), so a query is only judged when both readings agree for every feature",
+    "the collection a history started from is not changed by deriving other collections from it (same answers afterwards, also from a collection degapped from it again)",
     "get_projected_features is called with on_alignment=False (with the default it re-projects every alignment feature once per row); a source feature matched by its envelope but with no residues in the view gives the circumstance tag [source-feature-without-residues-in-view]",
 ]
 
@@ -141,6 +157,10 @@ def seq_cases(draw):
             i = draw(st.integers(0, len(lattice) - 2))
             j = draw(st.integers(i + 1, len(lattice) - 1))
             q["start"], q["stop"] = lattice[i], lattice[j]
+            # how the window is presented: both positions, one side only, counted from the end, or swapped
+            form = draw(st.sampled_from(["plain", "plain", "plain", "start-only", "stop-only", "negative", "swapped"]))
+            if form != "plain":
+                q["form"] = form
         queries.append(q)
     # the annotation db may also hold features of other sequences (it is keyed by seqid); they must never be returned
     decoy = draw(st.booleans())
@@ -219,13 +239,20 @@ def exec_strided(case) -> Soft:
     if not strided:
         return s
     s.cls(impl, "strided")
-    Vset = set(V)
     what = f"parent {parent!r} offset {offset} features {case['features']} history {case['history']}"
+    s.nontrivial = whole_view_strided(s, pre, view, parent, offset, case["features"], V, what)
+    return s
+
+
+def whole_view_strided(s, pre, view, parent, offset, features, V, what):
+    """whole-view query on a view with a positive stride showing parent indices V: every feature with residues in the view
+    is returned with exactly those residues, one without may be returned with an empty slice.  Returns non-triviality"""
+    Vset = set(V)
     ok, feats = s.call(pre + "get_features[partial]", lambda: list(view.get_features(allow_partial=True)))
     if not ok:
-        return s
+        return False
     want = {}
-    for n_, f in enumerate(case["features"]):
+    for n_, f in enumerate(features):
         idx = [i for a, b in f["spans"] for i in range(a - offset, b - offset) if i in Vset]
         txt = "".join(parent[i] for i in idx)
         want[(f["name"], f["biotype"], n_)] = (rc(txt) if f["strand"] == "-" else txt, f)
@@ -244,8 +271,7 @@ def exec_strided(case) -> Soft:
     for g in got:
         if not g[2]:
             s.check((g[0], g[1]) in allowed_empty, pre + "unexpected-empty-feature", f"{what}: {g}")
-    s.nontrivial = any(0 < len(v[0]) < sum(b - a for a, b in v[1]["spans"]) for v in want.values())
-    return s
+    return any(0 < len(v[0]) < sum(b - a for a, b in v[1]["spans"]) for v in want.values())
 
 
 # ---------------------------------------------------------------- execute
@@ -368,17 +394,45 @@ def exec_seq(case) -> Soft:
         if not ok:
             return s
         view = view2
-    n = hi - lo
     want_str = parent[lo:hi]
     want_str = rc(want_str) if rev else want_str
     ok, got = s.call(pre + "str", str, view)
     if ok and not s.eq(got, want_str, pre + "str", f"history {case['history']}"):
         return s
     s.cls(impl, "offset" if offset else "no-offset", "reversed-view" if rev else "forward-view")
+    s.nontrivial = run_queries(s, pre, view, parent, offset, case["features"], lo, hi, rev, has_rc, case["queries"], dg, f"history {case['history']}")
+    return s
+
+
+def window_kwargs(q, n):
+    """the start/stop arguments that present the model window [q.start, q.stop) of a view of length n in the drawn form"""
+    if "start" not in q:
+        return {}, ""
+    ws, we = q["start"], q["stop"]
+    form = q.get("form", "plain")
+    if form == "start-only" and we == n:
+        return {"start": ws}, "[one-sided-window]"
+    if form == "stop-only" and ws == 0:
+        return {"stop": we}, "[one-sided-window]"
+    if form == "negative":
+        # documented in the code of get_features: negative start / stop count from the end of the view
+        return {"start": ws - n, "stop": we - n if we < n else we}, "[negative-window]"
+    if form == "swapped" and ws > 0:
+        # get_features orders the two positions
+        return {"start": we, "stop": ws}, "[swapped-window]"
+    return {"start": ws, "stop": we}, ""
+
+
+def run_queries(s, pre, view, parent, offset, features, lo, hi, rev, has_rc, queries, dg, hist_txt):
+    """window queries on a unit-step view [lo,hi) (reversed when rev) of the parent: exact membership by envelope,
+    residues from the index model, seq[feature], get_slice(complete=True).  Returns the non-triviality flag"""
+    n = hi - lo
     nontriv = False
-    for q in case["queries"]:
-        kw = {k: q[k] for k in ("biotype", "name", "start", "stop") if k in q}
-        what = f"parent {parent!r} offset {offset} features {case['features']} history {case['history']} query {q}"
+    for q in queries:
+        kw = {k: q[k] for k in ("biotype", "name") if k in q}
+        wkw, wtag = window_kwargs(q, n)
+        kw.update(wkw)
+        what = f"parent {parent!r} offset {offset} features {features} {hist_txt} query {q}"
         # absolute window
         ws, we = q.get("start", 0), q.get("stop", n)
         if rev:
@@ -386,7 +440,8 @@ def exec_seq(case) -> Soft:
         else:
             W = (offset + lo + ws, offset + lo + we)
         want = []
-        for f in case["features"]:
+        complete = {}
+        for f in features:
             if "biotype" in q and f["biotype"] != q["biotype"]:
                 continue
             if "name" in q and f["name"] != q["name"]:
@@ -402,13 +457,16 @@ def exec_seq(case) -> Soft:
             want.append((f["name"], f["biotype"], exp))
             inside = sum(1 for a, b in f["spans"] for i in range(a - offset, b - offset) if lo <= i < hi)
             total = sum(b - a for a, b in f["spans"])
+            complete.setdefault((f["name"], f["biotype"], exp), set()).add(inside == total)
             if 0 < inside < total:
                 s.cls("partial-feature")
                 if has_rc and (len(f["spans"]) > 1 or f["strand"] == "-"):
                     nontriv = True
             if inside == 0:
                 s.cls("feature-outside-view")
-        sig = pre + ("get_features[partial]" if q["allow_partial"] else "get_features") + dg
+        if wtag:
+            s.cls("window:" + wtag.strip("[]"))
+        sig = pre + ("get_features[partial]" if q["allow_partial"] else "get_features") + wtag + dg
         ok, feats = s.call(sig, lambda: list(view.get_features(allow_partial=q["allow_partial"], **kw)))
         if not ok:
             continue
@@ -423,14 +481,29 @@ def exec_seq(case) -> Soft:
             ok3, coords = s.call(sig + "/coordinates", ft.map.get_coordinates)
             if ok3:
                 s.check(all(0 <= a <= n and 0 <= b <= n for a, b in coords), sig + "/coordinates-outside-view", f"{what}: {coords} view length {n}")
+            # seq[feature] is documented to be feature.get_slice()
+            xsig = pre + "feature" + dg
+            ok4, via_index = s.call(xsig + "/getitem", lambda: str(view[ft]))
+            if ok4:
+                s.eq(via_index, sl, xsig + "/getitem", f"{what}: feature {ft.name}")
+            # get_slice(complete=True): "if feature not complete on parent, causes an exception to be raised"
+            state = complete.get((ft.name, ft.biotype, sl))
+            if state is not None and len(state) == 1:
+                if True in state:
+                    ok5, whole = s.call(xsig + "/get_slice[complete]", lambda: str(ft.get_slice(complete=True)))
+                    if ok5:
+                        s.eq(whole, sl, xsig + "/get_slice[complete]", f"{what}: feature {ft.name}")
+                else:
+                    ok5, whole = s.call(xsig + "/get_slice[complete]", lambda: str(ft.get_slice(complete=True)), allowed=(ValueError,))
+                    s.check(not ok5, xsig + "/get_slice[complete]/incomplete-feature-accepted", f"{what}: feature {ft.name} gave {whole!r}")
+                    s.cls("complete-refused")
         if bad:
             continue
         if sorted(x[:2] for x in got) != sorted(x[:2] for x in want):
             s.fail(sig + "/membership", f"{what}: returned {sorted(got)} expected {sorted(want)}")
         elif sorted(got) != sorted(want):
             s.fail(sig + "/residues", f"{what}: returned {sorted(got)} expected {sorted(want)}")
-    s.nontrivial = nontriv
-    return s
+    return nontriv
 
 
 # --------------------------------------------------------- alignment level
@@ -463,7 +536,7 @@ def aln_cases(draw):
     hist = []
     for _ in range(draw(st.integers(0, 3))):
         n = hi - lo
-        kind = draw(st.sampled_from(["slice", "slice", "rc"]))
+        kind = draw(st.sampled_from(["slice", "slice", "slice", "rc", "rc", "copy", "deepcopy"]))
         if kind == "slice":
             if n < 2:
                 continue
@@ -474,9 +547,12 @@ def aln_cases(draw):
                 lo, hi = hi - b, hi - a
             else:
                 lo, hi = lo + a, lo + b
-        else:
+        elif kind == "rc":
             hist.append(["rc"])
             rev = not rev
+        else:
+            # Alignment.copy() / Alignment.deepcopy(sliced=False): the same view, the same annotations
+            hist.append([kind])
     target = draw(st.sampled_from(list(rows)))
     # filtered alignment-level queries; the two unfiltered ones are always asked
     queries = [{"allow_partial": True}, {"allow_partial": False}]
@@ -533,6 +609,12 @@ def exec_aln(case) -> Soft:
                 lo, hi = hi - b, hi - a
             else:
                 lo, hi = lo + a, lo + b
+        elif op[0] == "copy":
+            ok, view2 = s.call("copy", view.copy)
+            s.cls("aln-copy")
+        elif op[0] == "deepcopy":
+            ok, view2 = s.call("deepcopy", lambda: view.deepcopy(sliced=False))
+            s.cls("aln-copy")
         else:
             ok, view2 = s.call("rc", view.rc)
             rev = not rev
@@ -540,6 +622,8 @@ def exec_aln(case) -> Soft:
             return s
         view = view2
     n = hi - lo
+    # copies leave the view where it is: only slices and rc make it a "sliced" alignment
+    moved = [op for op in case["history"] if op[0] in ("slice", "rc")]
 
     def colmap(name):
         """alignment columns of each residue index of row `name`"""
@@ -558,7 +642,7 @@ def exec_aln(case) -> Soft:
     what0 = f"rows {rows} features {case['features']} history {case['history']}"
     has_aln_feature = any(f["on_alignment"] for f in case["features"])
     circ = ""
-    if case["history"] and has_aln_feature:
+    if moved and has_aln_feature:
         circ = "[alignment-feature-on-sliced-alignment]"
     elif any(op[0] == "rc" for op in case["history"]):
         circ = "[row-feature-on-rc-alignment]"
@@ -595,7 +679,7 @@ def exec_aln(case) -> Soft:
     for q in case.get("queries", []):
         oa = q.get("on_alignment")
         kw = {k: q[k] for k in ("seqid", "biotype", "name", "on_alignment") if k in q}
-        if case["history"] and has_aln_feature and oa is not False:
+        if moved and has_aln_feature and oa is not False:
             qc = "[alignment-feature-on-sliced-alignment]"
         else:
             qc = rc_circ or gap_circ
@@ -674,7 +758,7 @@ def exec_aln(case) -> Soft:
 
     # ---- collection-level query on the degapped collection (SequenceCollection.get_features takes no window: only
     # asserted for the whole forward alignment, where every row feature lies inside)
-    if ok_dg and not case["history"]:
+    if ok_dg and not moved:
         sig = "degap.get_features[after-degap]"
         ok, fts = s.call(sig, lambda: list(degapped.get_features(allow_partial=True)))
         if ok:
@@ -732,6 +816,17 @@ def exec_aln(case) -> Soft:
         ok, sl = s.call("feature.get_slice" + circ, lambda: ft.get_slice())
         if not ok:
             continue
+        if kept:
+            # allow_gaps=True: "if on an alignment, includes the gap positions" = every column from the first to the
+            # last retained column of the feature, all rows, read on the feature's strand
+            ok, slg = s.call("feature.get_slice[allow_gaps]" + circ, lambda: ft.get_slice(allow_gaps=True))
+            if ok and hasattr(slg, "to_dict"):
+                ok, dgaps = s.call("feature.get_slice[allow_gaps]/to_dict", slg.to_dict)
+                if ok:
+                    cover = list(range(min(kept), max(kept) + 1))
+                    want_g = {nm: (rc_gapped(shown(nm, cover)) if f["strand"] == "-" else shown(nm, cover)) for nm in rows}
+                    s.eq(dgaps, want_g, "feature/slice[allow_gaps]" + circ, f"{what0}: feature {f['name']}")
+                    s.cls("allow-gaps")
         if f["on_alignment"]:
             ok, d = s.call("feature.get_slice/to_dict", sl.to_dict)
             if ok:
@@ -770,10 +865,536 @@ def rc_gapped(s):
     return "".join(COMP.get(c, c) for c in reversed(s))
 
 
+# ------------------------------------------------------- collection level
+def upper(name):
+    return name.upper()
+
+
+@st.composite
+def coll_cases(draw):
+    """sequence collections (old/new implementation; made directly or by degapping an alignment view), features on several
+    sequences, collection-level histories, then one sequence taken out and viewed"""
+    impl = draw(st.sampled_from(["new", "old"]))
+    source = "unaligned" if impl == "new" else draw(st.sampled_from(["unaligned", "unaligned", "aln-degap"]))
+    nseq = draw(st.integers(2, 3))
+    names = [f"s{r}" for r in range(nseq)]
+    rows = None
+    if source == "aln-degap":
+        L = draw(st.integers(6, 20))
+        rows = {}
+        for nm in names:
+            chars = draw(st.lists(st.sampled_from("ACGTACGT--"), min_size=L, max_size=L))
+            if all(c == "-" for c in chars):
+                chars[0] = "A"
+            rows[nm] = "".join(chars)
+        seqs = {nm: r.replace("-", "") for nm, r in rows.items()}
+    else:
+        seqs = {}
+        for nm in names:
+            n_ = draw(st.integers(6, 24))
+            seqs[nm] = "".join(draw(st.lists(st.sampled_from("ACGT"), min_size=n_, max_size=n_)))
+    load = "add_feature" if source == "aln-degap" else draw(st.sampled_from(["add_feature", "db", "gff", "copy_annotations", "copy_annotations-gffdb"]))
+    feats = []
+    for i in range(draw(st.integers(1, 4))):
+        sid = draw(st.sampled_from(names))
+        f = draw(feature_st(len(seqs[sid]), 0, i))
+        if load == "gff":
+            f["name"] = f"f{i}"  # records sharing an ID are merged
+        f["seqid"] = sid
+        feats.append(f)
+    decoy = draw(st.booleans())
+    # the view of the alignment that is degapped
+    view = {nm: [0, len(sq)] for nm, sq in seqs.items()}
+    crev = False
+    aln_hist = []
+    if rows is not None:
+        lo, hi = 0, L
+        for _ in range(draw(st.integers(0, 2))):
+            n = hi - lo
+            if draw(st.integers(0, 2)) == 0:
+                aln_hist.append(["rc"])
+                crev = not crev
+                continue
+            if n < 2:
+                continue
+            a = draw(st.integers(0, n - 1))
+            b = draw(st.integers(a + 1, n))
+            aln_hist.append(["slice", a, b])
+            if crev:
+                lo, hi = hi - b, hi - a
+            else:
+                lo, hi = lo + a, lo + b
+        view = {nm: [len(r[:lo].replace("-", "")), len(r[:hi].replace("-", ""))] for nm, r in rows.items()}
+    # collection-level history
+    present = list(names)
+    hist = []
+    kinds = ["rc", "rc", "take", "take", "degap"] + (["copy"] if impl == "old" else [])
+    for _ in range(draw(st.integers(0, 3))):
+        kind = draw(st.sampled_from(kinds))
+        if kind == "take":
+            if len(present) < 2:
+                continue
+            keep = draw(st.lists(st.sampled_from(present), min_size=1, max_size=len(present), unique=True))
+            negate = draw(st.booleans())
+            given = [nm for nm in present if nm not in keep] if negate else keep
+            if not given:
+                continue
+            hist.append(["take", given, negate, draw(st.booleans())])
+            present = [nm for nm in present if nm in keep]
+        else:
+            hist.append([kind])
+            if kind == "rc":
+                crev = not crev
+    if draw(st.integers(0, 4)) == 4:
+        hist.append(["rename"])  # always last: what later operations do with renamed sequences is outside the domain
+    # collection-level queries
+    cqueries = [{"allow_partial": True}, {"allow_partial": False}]
+    maxlen = max(len(sq) for sq in seqs.values())
+    for _ in range(draw(st.integers(0, 3))):
+        q = {"allow_partial": draw(st.booleans())}
+        if draw(st.booleans()):
+            q["seqid"] = draw(st.sampled_from(present))
+        if draw(st.integers(0, 2)) == 0:
+            q["biotype"] = draw(st.sampled_from(["gene", "exon", "cds"]))
+        if draw(st.integers(0, 3)) == 0:
+            q["name"] = draw(st.sampled_from([f["name"] for f in feats]))
+        if impl == "new" and draw(st.booleans()):
+            a = draw(st.integers(0, maxlen - 1))
+            q["start"], q["stop"] = a, draw(st.integers(a + 1, maxlen))
+        cqueries.append(q)
+    # one sequence is taken out and viewed
+    cands = [nm for nm in present if view[nm][1] > view[nm][0]]
+    case = {"impl": impl, "source": source, "seqs": seqs, "rows": rows, "aln_history": aln_hist, "features": feats, "load": load, "decoy": decoy,
+            "history": hist, "coll_queries": cqueries, "target": None, "seq_history": [], "queries": []}
+    if not cands:
+        return case
+    tgt = draw(st.sampled_from(cands))
+    case["target"] = tgt
+    tfeats = [f for f in feats if f["seqid"] == tgt]
+    lo, hi = view[tgt]
+    V = list(range(lo, hi))
+    if crev:
+        V = V[::-1]
+    rev = crev
+    strided = False
+    shist = []
+    for _ in range(draw(st.integers(0, 4))):
+        n = len(V)
+        kind = draw(st.sampled_from(["slice", "slice", "rc", "copy", "stride", "rc", "slice", "deepcopy", "degap"]))
+        if kind in ("slice", "stride"):
+            if n < 2:
+                continue
+            k = draw(st.sampled_from([2, 2, 3])) if kind == "stride" else 1
+            pts = set()
+            if k == 1 and not strided:
+                for f in tfeats:
+                    for s_, e_ in f["spans"]:
+                        for x in (s_, e_):
+                            v = (max(V) + 1 - x) if rev else (x - min(V))
+                            for d in (-1, 0, 1, 2):
+                                if 0 <= v + d <= n:
+                                    pts.add(v + d)
+            pts = sorted(pts)
+            if len(pts) >= 2 and draw(st.integers(0, 9)) < 6:
+                i = draw(st.integers(0, len(pts) - 2))
+                j = draw(st.integers(i + 1, len(pts) - 1))
+                a, b = pts[i], pts[j]
+            else:
+                a = draw(st.integers(0, n - 1))
+                b = draw(st.integers(a + 1, n))
+            shist.append(["slice", a, b, k])
+            V = V[a:b:k]
+            strided = strided or k > 1
+        elif kind == "rc":
+            if strided:
+                continue
+            shist.append(["rc"])
+            V = V[::-1]
+            rev = not rev
+        else:
+            shist.append([kind])
+    case["seq_history"] = shist
+    if strided:
+        return case
+    lo, hi = min(V), max(V) + 1
+    n = hi - lo
+    lattice = {0, n}
+    for f in tfeats:
+        for s_, e_ in f["spans"]:
+            for x in (s_, e_):
+                v = (hi - x) if rev else (x - lo)
+                for d in (-1, 0, 1):
+                    if 0 <= v + d <= n:
+                        lattice.add(v + d)
+    lattice = sorted(lattice)
+    queries = []
+    for _ in range(draw(st.integers(1, 4))):
+        q = {"allow_partial": draw(st.booleans())}
+        if draw(st.integers(0, 2)) == 0:
+            q["biotype"] = draw(st.sampled_from(["gene", "exon", "cds"]))
+        if draw(st.integers(0, 3)) == 0:
+            q["name"] = draw(st.sampled_from([f["name"] for f in feats]))
+        if draw(st.integers(0, 2)) > 0 and len(lattice) >= 2:
+            i = draw(st.integers(0, len(lattice) - 2))
+            j = draw(st.integers(i + 1, len(lattice) - 1))
+            q["start"], q["stop"] = lattice[i], lattice[j]
+            form = draw(st.sampled_from(["plain", "plain", "plain", "start-only", "stop-only", "negative", "swapped"]))
+            if form != "plain":
+                q["form"] = form
+        queries.append(q)
+    case["queries"] = queries
+    return case
+
+
+DECOY_SEQID = "other-seq"
+
+
+def build_collection(case, s, pre):
+    """returns (collection, set of seqids with records in its db) or None after a recorded failure"""
+    from cogent3 import load_annotations, make_aligned_seqs, make_unaligned_seqs
+    from cogent3.core.annotation_db import BasicAnnotationDb, GffAnnotationDb
+
+    new = case["impl"] == "new"
+    feats = case["features"]
+    names = list(case["seqs"])
+    db_seqids = {f["seqid"] for f in feats}
+
+    def record(f, sid=None):
+        return dict(seqid=sid or f["seqid"], biotype=f["biotype"], name=f["name"], spans=[tuple(x) for x in f["spans"]], strand=f["strand"])
+
+    def add_decoys(db):
+        longest = max(len(sq) for sq in case["seqs"].values())
+        for biotype in ("gene", "exon", "cds"):
+            db.add_feature(seqid=DECOY_SEQID, biotype=biotype, name="shared", spans=[(0, longest)], strand="+")
+
+    if case["source"] == "aln-degap":
+        rows = case["rows"]
+        L = len(next(iter(rows.values())))
+        ok, aln = s.call(pre + "construct", lambda: make_aligned_seqs(dict(rows), moltype="dna", array_align=False))
+        if not ok:
+            return None
+        for f in feats:
+            ok, _ = s.call(pre + "add_feature", lambda: aln.add_feature(on_alignment=False, **record(f)))
+            if not ok:
+                return None
+        if case["decoy"]:
+            add_decoys(aln.annotation_db)
+            db_seqids.add(DECOY_SEQID)
+            # an alignment-level feature is no feature of any sequence of the degapped collection
+            ok, _ = s.call(pre + "add_feature[alignment]", lambda: aln.add_feature(biotype="gene", name="shared", spans=[(0, L)], on_alignment=True))
+            if not ok:
+                return None
+        view = aln
+        for op in case["aln_history"]:
+            if op[0] == "rc":
+                ok, view = s.call(pre + "aln.rc", view.rc)
+            else:
+                ok, view = s.call(pre + "aln.slice", lambda: view[op[1] : op[2]])
+            if not ok:
+                return None
+        ok, coll = s.call(pre + "aln.degap", view.degap)
+        return (coll, db_seqids) if ok else None
+
+    ok, coll = s.call(pre + "construct", lambda: make_unaligned_seqs(dict(case["seqs"]), moltype="dna", new_type=new))
+    if not ok:
+        return None
+    load = case["load"]
+    if load == "add_feature":
+        for f in feats:
+            ok, _ = s.call(pre + "add_feature", lambda: coll.add_feature(**record(f)))
+            if not ok:
+                return None
+    elif load == "db":
+        db = GffAnnotationDb()
+        for f in feats:
+            db.add_feature(**record(f))
+        ok, _ = s.call(pre + "set-annotation_db", lambda: setattr(coll, "annotation_db", db))
+        if not ok:
+            return None
+    elif load == "gff":
+        text = gff_text([(f["seqid"], f) for f in feats])
+        if hasattr(coll, "annotate_from_gff"):
+            ok, _ = s.call(pre + "annotate_from_gff", lambda: with_gff_file(text, coll.annotate_from_gff))
+        else:
+            ok, _ = s.call(pre + "load_annotations", lambda: setattr(coll, "annotation_db", with_gff_file(text, lambda path: load_annotations(path=path, seqids=names))))
+        if not ok:
+            return None
+    else:
+        # copy_annotations(db): "Only copies annotations for records with seqid in self.names"; the source db always
+        # holds records of another seqid.  A source of the collection's own db class is copied record by record; a
+        # GffAnnotationDb source makes copy_annotations build the union of the two dbs (which holds every record)
+        srcdb = BasicAnnotationDb() if load == "copy_annotations" else GffAnnotationDb()
+        for f in feats:
+            srcdb.add_feature(**record(f))
+        add_decoys(srcdb)
+        ok, _ = s.call(pre + "copy_annotations", lambda: coll.copy_annotations(srcdb))
+        if not ok:
+            return None
+        if load != "copy_annotations":
+            db_seqids.add(DECOY_SEQID)
+    if case["decoy"]:
+        add_decoys(coll.annotation_db)
+        db_seqids.add(DECOY_SEQID)
+    return coll, db_seqids
+
+
+def exec_coll(case) -> Soft:
+    s = Soft("C04/")
+    impl = case["impl"]
+    new = impl == "new"
+    pre = f"coll/{impl}/"
+    seqs = case["seqs"]
+    feats = case["features"]
+    built = build_collection(case, s, pre)
+    if built is None:
+        return s
+    coll, db_seqids = built
+    s.cls(impl, "source:" + case["source"], "load:" + case["load"])
+    # ---- model of the collection: sequences present (by original seqid), the interval of each that is shown, orientation
+    view = {nm: (0, len(sq)) for nm, sq in seqs.items()}
+    crev = False
+    if case["source"] == "aln-degap":
+        rows = case["rows"]
+        lo, hi = 0, len(next(iter(rows.values())))
+        for op in case["aln_history"]:
+            if op[0] == "rc":
+                crev = not crev
+            elif crev:
+                lo, hi = hi - op[2], hi - op[1]
+            else:
+                lo, hi = lo + op[1], lo + op[2]
+        view = {nm: (len(r[:lo].replace("-", "")), len(r[:hi].replace("-", ""))) for nm, r in rows.items()}
+    of_views = any(view[nm] != (0, len(seqs[nm])) for nm in seqs)
+    present = list(seqs)
+    state0 = (list(present), crev, set(db_seqids))
+    renamed = False
+    cur = coll
+    what0 = f"{impl} {case['source']} seqs {seqs} rows {case['rows']} aln history {case['aln_history']} load {case['load']} decoy {case['decoy']} features {feats} history {case['history']}"
+
+    def reattach(nxt, prev):
+        # new-style rc() / degap() are documented not to retain the annotation db: it is attached again
+        if new:
+            return s.call(pre + "set-annotation_db", lambda: setattr(nxt, "annotation_db", prev.annotation_db))[0]
+        return True
+
+    for op in case["history"]:
+        kind = op[0]
+        if kind == "rc":
+            ok, nxt = s.call(pre + "rc", cur.rc)
+            ok = ok and reattach(nxt, cur)
+            crev = not crev
+        elif kind == "degap":
+            ok, nxt = s.call(pre + "degap", cur.degap)
+            ok = ok and reattach(nxt, cur)
+        elif kind == "copy":
+            ok, nxt = s.call(pre + "copy", cur.copy)
+        elif kind == "take":
+            given, negate, copy_annot = op[1], op[2], op[3]
+            if new:
+                ok, nxt = s.call(pre + "take_seqs", lambda: cur.take_seqs(list(given), negate=negate, copy_annotations=copy_annot))
+            else:
+                ok, nxt = s.call(pre + "take_seqs", lambda: cur.take_seqs(list(given), negate=negate))
+            present = [nm for nm in present if (nm in given) != negate]
+            if not new or copy_annot:
+                db_seqids = db_seqids & set(present)  # only the records of the selected sequences are copied
+        else:
+            ok, nxt = s.call(pre + "rename_seqs", lambda: cur.rename_seqs(upper))
+            renamed = True
+        if not ok:
+            return s
+        cur = nxt
+        s.cls("coll-op:" + kind)
+
+    def curname(nm):
+        return nm.upper() if renamed else nm
+
+    def shown(nm, flip):
+        lo, hi = view[nm]
+        txt = seqs[nm][lo:hi]
+        return rc(txt) if flip else txt
+
+    ok, d = s.call(pre + "to_dict", cur.to_dict)
+    if not ok or not s.eq(d, {curname(nm): shown(nm, crev) for nm in present}, pre + "to_dict", what0):
+        return s
+    # records keyed by the old seqid: old-style renamed sequences keep them (pinned by test_seq_rename_preserves_annotations);
+    # new-style renamed sequences carry a new seqid, what becomes of the records is not documented -> nothing is required
+    # of them except that whatever is returned denotes the right residues
+    relaxed = new and renamed
+    foreign = bool(db_seqids - set(present)) or (relaxed and bool(db_seqids))
+    # circumstance: old-style rename_seqs applied to reverse complemented sequences
+    rtag = "[rename-of-reversed]" if (renamed and crev and not new) else ""
+
+    def expected_records(names_present, q, strict_views):
+        want = []
+        ambiguous = False
+        for f in feats:
+            nm = f["seqid"]
+            if nm not in names_present:
+                continue
+            if "seqid" in q and nm != q["seqid"]:
+                continue
+            if "biotype" in q and f["biotype"] != q["biotype"]:
+                continue
+            if "name" in q and f["name"] != q["name"]:
+                continue
+            fs, fe = min(x[0] for x in f["spans"]), max(x[1] for x in f["spans"])
+            lo, hi = view[nm]
+            if strict_views:
+                if lo == hi:
+                    continue
+                hit = (fs < hi and fe > lo) if q["allow_partial"] else (lo <= fs and fe <= hi)
+                if not hit:
+                    continue
+            if "start" in q:
+                # new-style collection window, in absolute coordinates. The docstring calls start "not inclusive" and stop
+                # "inclusive", the db treats the window as [start, stop): a feature is only judged when both readings agree
+                verdicts = set()
+                for ws in (q["start"], q["start"] + 1):
+                    for we in (q["stop"], q["stop"] + 1):
+                        verdicts.add((fs < we and fe > ws) if q["allow_partial"] else (ws <= fs and fe <= we))
+                if len(verdicts) > 1:
+                    ambiguous = True
+                if True not in verdicts:
+                    continue
+            want.append((nm, f["name"], f["biotype"], expected_slice(seqs[nm], 0, f, lo, hi)))
+        return want, ambiguous
+
+    def collection_query(obj, q, names_present, is_foreign, label, name_of, views, tag=""):
+        kw = {k: q[k] for k in ("seqid", "biotype", "name", "start", "stop") if k in q}
+        if is_foreign and "seqid" not in q:
+            tag += "[db-holds-other-seqids]"
+        if views:
+            tag += "[collection-of-views]"
+        sig = pre + label + ("[partial]" if q["allow_partial"] else "") + ("[window]" if "start" in q else "") + tag
+        ok, fts = s.call(sig, lambda: list(obj.get_features(allow_partial=q["allow_partial"], **kw)))
+        if not ok:
+            return
+        got = []
+        for ft in fts:
+            ok2, sl = s.call(sig + "/get_slice", lambda: str(ft.get_slice()))
+            if not ok2:
+                return
+            got.append((ft.seqid, ft.name, ft.biotype, sl))
+        want, ambiguous = expected_records(names_present, q, views)
+        if ambiguous:
+            s.cls("ambiguous-collection-window")
+            return
+        want = [(name_of(nm), a, b, c) for nm, a, b, c in want]
+        what = f"{what0} query {q}"
+        if relaxed and obj is cur:
+            unknown = [g for g in got if g not in want]
+            s.check(not unknown, sig + "/wrong-feature", f"{what}: returned {sorted(got)}, possible {sorted(want)}")
+            return
+        if sorted(x[:3] for x in got) != sorted(x[:3] for x in want):
+            s.fail(sig + "/membership", f"{what}: returned {sorted(got)} expected {sorted(want)}")
+        elif sorted(got) != sorted(want):
+            s.fail(sig + "/residues", f"{what}: returned {sorted(got)} expected {sorted(want)}")
+
+    for q in case["coll_queries"]:
+        q = dict(q)
+        if "seqid" in q and relaxed:
+            del q["seqid"]  # the original name is unknown to a renamed new-style collection (ValueError), the new one matches no record
+        collection_query(cur, q, present, foreign, "get_features", curname, of_views, rtag)
+    if of_views:
+        s.cls("collection-of-views")
+    if foreign:
+        s.cls("db-holds-other-seqids")
+
+    # ---- one sequence out of the collection, viewed
+    nontriv = False
+    tgt = case["target"]
+    if tgt is not None and tgt in present:
+        tfeats = [f for f in feats if f["seqid"] == tgt]
+        spre = pre + "seq" + rtag + "/"
+        ok, seq = s.call(spre + "get_seq", lambda: cur.get_seq(curname(tgt)))
+        if not ok:
+            return s
+        lo, hi = view[tgt]
+        V = list(range(lo, hi))
+        if crev:
+            V = V[::-1]
+        rev = crev
+        has_rc = crev
+        strided = False
+        dg = ""
+        vw = seq
+        for op in case["seq_history"]:
+            kind = op[0]
+            if kind == "slice":
+                a, b, k = op[1], op[2], op[3]
+                ok, vw2 = s.call(spre + ("stride" if k > 1 else "slice"), lambda: vw[a:b:k] if k > 1 else vw[a:b])
+                V = V[a:b:k]
+                strided = strided or k > 1
+            elif kind == "rc":
+                ok, vw2 = s.call(spre + "rc", vw.rc)
+                V = V[::-1]
+                rev = not rev
+                has_rc = True
+            elif kind == "copy":
+                if new and min(V) > 0 and "[copy-" not in spre:
+                    # circumstance: copy() of a new-style sequence that came out of a collection and does not start at
+                    # position 0 of its parent; everything after it carries the tag
+                    spre = pre + "seq[copy-of-sliced-collection-seq]" + rtag + "/"
+                ok, vw2 = s.call(spre + "copy", vw.copy)
+                s.cls("seq-copy")
+            elif kind == "deepcopy":
+                ok, vw2 = s.call(spre + "deepcopy", lambda: _copy.deepcopy(vw))
+                s.cls("seq-copy")
+            else:
+                ok, vw2 = s.call(spre + "degap", vw.degap)
+                dg = "[degap-of-view]" if (V[0] != 0 or rev or strided) else (dg or "[after-degap]")
+            if not ok:
+                return s
+            vw = vw2
+        want_str = "".join(seqs[tgt][i] for i in V)
+        if rev:
+            want_str = "".join(COMP[c] for c in want_str)
+        ok, got = s.call(spre + "str", str, vw)
+        if not ok or not s.eq(got, want_str, spre + "str", f"{what0} sequence {tgt} history {case['seq_history']}"):
+            return s
+        hist_txt = f"({impl} collection: {what0}) sequence {tgt} history {case['seq_history']}"
+        if relaxed:
+            ok, fts = s.call(spre + "get_features[partial]", lambda: list(vw.get_features(allow_partial=True)))
+            if ok:
+                Vset = set(V)
+                possible = set()
+                for f in tfeats:
+                    idx = [i for a, b in f["spans"] for i in range(a, b) if i in Vset]
+                    txt = "".join(seqs[tgt][i] for i in idx)
+                    possible.add((f["name"], f["biotype"], rc(txt) if f["strand"] == "-" else txt))
+                for ft in fts:
+                    ok2, sl = s.call(spre + "get_features[partial]/get_slice", lambda: str(ft.get_slice()))
+                    if ok2:
+                        s.check((ft.name, ft.biotype, sl) in possible, spre + "get_features[partial]/wrong-feature", f"{hist_txt}: returned {(ft.name, ft.biotype, sl)}, possible {sorted(possible)}")
+        elif strided:
+            s.cls("strided")
+            nontriv = whole_view_strided(s, spre, vw, seqs[tgt], 0, tfeats, V, hist_txt)
+        else:
+            s.cls("reversed-view" if rev else "forward-view")
+            nontriv = run_queries(s, spre, vw, seqs[tgt], 0, tfeats, min(V), max(V) + 1, rev, has_rc, case["queries"], dg, hist_txt)
+
+    # ---- the collection the history started from still answers as before, and so does a collection derived from it again
+    present0, crev0, db0 = state0
+    foreign0 = bool(db0 - set(present0))
+    # circumstance: old-style take_seqs was applied to the very sequence objects of the source collection (copy() shares them)
+    rest = [op[0] for op in case["history"]]
+    while rest and rest[0] == "copy":
+        rest.pop(0)
+    stag = "[source-seqs-rebound-by-take_seqs]" if (not new and rest and rest[0] == "take") else ""
+    for ap in (True, False):
+        collection_query(coll, {"allow_partial": ap}, present0, foreign0, "source-after-history/get_features", lambda nm: nm, of_views, stag)
+    ok, again = s.call(pre + "source-after-history/degap", coll.degap)
+    if ok and reattach(again, coll):
+        collection_query(again, {"allow_partial": True}, present0, foreign0, "source-after-history/degap.get_features", lambda nm: nm, of_views, stag)
+    s.nontrivial = nontriv or (crev and len(case["history"]) > 1 and any(len(f["spans"]) > 1 or f["strand"] == "-" for f in feats))
+    return s
+
+
 SUBS = [
     Sub("sequence", exec_seq, strategy=seq_cases(), quick=2400, thorough=320_000, shards_quick=16),
     Sub("alignment", exec_aln, strategy=aln_cases(), quick=800, thorough=64_000, shards_quick=16),
     Sub("strided", exec_strided, strategy=strided_cases(), quick=1200, thorough=96_000, shards_quick=16),
+    Sub("collection", exec_coll, strategy=coll_cases(), quick=1200, thorough=96_000, shards_quick=16),
 ]
 
 KNOWN_PREDICATES = {}
@@ -787,7 +1408,7 @@ FUZZ = {
 
 META = {
     "technique": "Hypothesis-generated features, view histories and query windows against an index-set model of features and views (sequence and alignment level)",
-    "level_text": "Thousands of generated cases per run place single- and multi-span features of either strand on old- and new-style sequences (with and without an annotation offset; added through the API or loaded from generated GFF3 text) and on gapped alignments, apply slice/rc/copy/degap histories, and compare every feature returned by window queries, its residues and its coordinates with a model that works on plain parent indices; alignment-level queries filtered by seqid, biotype, name and on_alignment are compared as exact name sets with and without partial matches; the row sequences of a view and of the collection obtained by degapping it are queried against the same model; projections through gapped rows (one feature, and all features of the other rows) are compared column by column.",
+    "level_text": "Old- and new-style sequence collections (also those obtained by degapping alignment views) are annotated through every loading route, put through rc / take_seqs / degap / copy / rename histories and queried at collection level and through sequences taken out of them, with one-sided, negative and swapped windows, seq[feature] and get_slice(complete=True). Thousands of generated cases per run place single- and multi-span features of either strand on old- and new-style sequences (with and without an annotation offset; added through the API or loaded from generated GFF3 text) and on gapped alignments, apply slice/rc/copy/degap histories, and compare every feature returned by window queries, its residues and its coordinates with a model that works on plain parent indices; alignment-level queries filtered by seqid, biotype, name and on_alignment are compared as exact name sets with and without partial matches; the row sequences of a view and of the collection obtained by degapping it are queried against the same model; projections through gapped rows (one feature, and all features of the other rows) are compared column by column.",
     "level_note": "Trusts the index model (about 60 lines). Features added to already sliced views and strided views are outside the domain (see assumptions).",
     "design_ref": "DESIGN.md section 1, C04",
 }
